@@ -450,5 +450,9 @@ func TestC07(t *testing.T) {
 			c07SustainedAccrual(ev, driver, i)
 		}
 	}
+	for _, driver := range vlib.Drivers() {
+		driver := driver
+		parallelCases(vlib.Scale(12, 300), 4, func(i int) { contractEconomy(ev, "C07", driver, i) })
+	}
 	finish(t, ev)
 }
